@@ -157,6 +157,14 @@ class Ctx:
         os.makedirs(self.tmpdir, exist_ok=True)
         self.scratch = tempfile.mkdtemp(prefix="polyverif-%s-" % pid)
         self.lean_ok = True
+        kfp = os.path.join(ROOT, "known_findings.json")
+        self.known = []
+        if os.path.exists(kfp):
+            try:
+                self.known = [e for e in json.load(open(kfp)).get("findings", [])
+                              if e.get("property") == pid and e.get("status") == "known"]
+            except Exception:
+                self.known = []
         self.replay = None
         self.failed_theorems = []
         self.log = []
@@ -171,6 +179,9 @@ class Ctx:
 
     def pick(self, quick, thorough):
         return thorough if self.thorough() else quick
+
+    def is_known(self, key):
+        return any(re.fullmatch(e["match"], key) for e in self.known)
 
     def violate(self, key, what, replay=None, found_input=True):
         for v in self.violations:
@@ -402,6 +413,14 @@ class Ctx:
                          "harness stream %s crashed or timed out (rc=%d)" % (stream, rc),
                          {"kind": "harness-crash", "stream": stream, "cmd": cmd, "output": out[-6000:]},
                          found_input=False)
+            # concrete findings recorded before the crash are not lost
+            if os.path.exists(viol):
+                for line in open(viol).read().splitlines():
+                    parts = line.split("\t")
+                    if len(parts) >= 3:
+                        res["viol"].append({"case": parts[0], "key": parts[1], "desc": parts[2],
+                                            "ops": parts[3].split(" ;; ") if len(parts) > 3 else []})
+            res["harness_cmd"] = cmd
             return res
         st = {}
         if os.path.exists(stats):
@@ -554,7 +573,7 @@ class Ctx:
             self.violate(v["key"], v["desc"],
                          {"kind": "input", "stream": stream, "case": v["case"], "ops": ops, "ops_before_shrinking": len(v["ops"]),
                           "what": v["desc"], "harness_cmd": res.get("harness_cmd")}, found_input=True)
-        if res["mismatches"] and not res["viol"]:
+        if res["mismatches"] and not any(not self.is_known(v["key"]) for v in res["viol"]):
             m = res["mismatches"][0]
             if self.replay is None and m.get("case_ops"):
                 m = dict(m)
@@ -574,7 +593,7 @@ class Ctx:
         theorem names with no-failing-input-found."""
         if self.lean_ok:
             return
-        if any(v.found_input for v in self.violations):
+        if any(v.found_input and not self.is_known(v.key) for v in self.violations):
             # attach the theorem names to the replay for context
             for v in self.violations:
                 if v.replay is not None:
